@@ -16,6 +16,9 @@
 //     smallest strings in which every segment still occurs in order), and single-character mutations of both;
 //   - regular-expression metacharacters in patterns and hosts.
 //
+// Hosts never contain a newline (a client address or a resolved name cannot): `.` of Go's regexp does not
+// match '\n', the model has that rule (gapOk), the streams do not go there.
+//
 // The login stream `plogin` runs the same generator through the whole login decision (loginCase): accounts of
 // one name with such host patterns, clients connecting from instantiations / overlap merges.
 package main
@@ -212,7 +215,7 @@ func genHosts(r *hx.Rand, pat string) []string {
 	base := hx.Pick(r, hosts)
 	if len(base) > 0 {
 		i := r.Intn(len(base))
-		hosts = append(hosts, base[:i]+base[i+1:])                                         // one character less
+		hosts = append(hosts, base[:i]+base[i+1:])                                        // one character less
 		hosts = append(hosts, base[:i]+hx.Pick(r, []string{"1", ".", "x", "%"})+base[i:]) // one more
 		hosts = append(hosts, base[:i]+hx.Pick(r, []string{"2", "x", "."})+base[i+1:])    // one changed
 	}
@@ -230,7 +233,7 @@ func hostPatternStream(out *hx.Out, a hx.RunArgs) {
 		{"anything", "%"}, {"", "%"}, {"localhost", "localhost"}, {"10.0.0.5", "10.0.0.5"},
 		{"1.2.10.10", "%.10.%.10"}, {"1.2.10.9.10", "%.10.%.10"}, {"10.1.0.5", "10.1%1.0.5"}, {"10.11.0.5", "10.1%1.0.5"},
 		{"10.0.0.1", "10.0.%.0.1"}, {"10.0.9.0.1", "10.0.%.0.1"}, {"ab", "a%ab"}, {"aab", "a%ab"}, {"aba", "ab%ba"}, {"abba", "ab%ba"},
-		{"10x0y0z5", "10.0.%"}, {"10.0.0.5", "10.0.0._"}, {"10.0.0._", "10.0.0._%"}, {"a\nb", "a%b"}, {"ab", "a%%b"}, {"a", "a%"}, {"a", "%a"},
+		{"10x0y0z5", "10.0.%"}, {"10.0.0.5", "10.0.0._"}, {"10.0.0._", "10.0.0._%"}, {"ab", "a%%b"}, {"a", "a%"}, {"a", "%a"},
 		{"a+b", "a+%"}, {"aab", "a+%"}, {"(x)", "(%)"}, {"a\\b", "a\\%"}, {"%", "%"}, {"a%b", "a%b"},
 	} {
 		hpCase(out, c[0], c[1], "corpus")
@@ -291,10 +294,6 @@ func hostPatternStream(out *hx.Out, a hx.RunArgs) {
 		}
 		pat := b.String()
 		for _, h := range genHosts(rr, pat) {
-			if rr.Chance(1, 12) && len(h) > 0 {
-				i := rr.Intn(len(h))
-				h = h[:i] + "\n" + h[i:]
-			}
 			hpCase(out, h, pat, "metachars")
 		}
 	}
